@@ -839,3 +839,83 @@ Proof.
 Qed.
 End Exec.
 End Nets.
+
+(* ------------------------------------------------------------------------------------------------ *)
+(* 9. the same, with hypotheses that are decidable on the computed orbits (no closed node set needed) *)
+(* ------------------------------------------------------------------------------------------------ *)
+Section Checked.
+Variable fl : name -> mpath -> name.
+Variable d : bdesign.
+Hypothesis Hnames : names_ok fl d = true.
+Hypothesis Hpairs : pairs_ok d = true.
+
+Definition all_ok_nodes (o : list bnode) : Prop := forall y, In y o -> bnode_ok d y = true.
+
+Lemma node_eqb_phi_ok a b : bnode_ok d a = true -> bnode_ok d b = true -> node_eqb (phi fl a) (phi fl b) = bnode_eqb a b.
+Proof.
+  intros Ha Hb. destruct (bnode_eqb a b) eqn:E.
+  - apply bnode_eqb_eq in E. subst. apply NetsProofs.node_eqb_eq. reflexivity.
+  - destruct (node_eqb (phi fl a) (phi fl b)) eqn:E2; [|reflexivity]. apply NetsProofs.node_eqb_eq in E2.
+    apply (phi_inj fl d Hnames) in E2; auto. subst. rewrite (proj2 (bnode_eqb_eq b b) eq_refl) in E. discriminate.
+Qed.
+
+Lemma borbit_head fuel x o : borbit d fuel x = Ok o -> exists r, o = x :: r.
+Proof.
+  destruct fuel as [|f]; cbn [borbit]; [intros H; inversion H; eauto|].
+  destruct (bstep d x) as [n'|]; [|discriminate]. cbn [bind]. destruct (bnode_eqb n' x); [intros H; inversion H; eauto|].
+  destruct (borbit d f n') as [r|]; [|discriminate]. cbn [bind]. intros H. inversion H. eauto.
+Qed.
+
+Lemma orbit_lower_checked fuel : forall x o, borbit d fuel x = Ok o -> all_ok_nodes o ->
+  orbit (lower fl d) fuel (phi fl x) = Ok (map (phi fl) o).
+Proof.
+  induction fuel as [|f IH]; intros x o H Hok; [cbn [borbit orbit] in *; inversion H; reflexivity|].
+  destruct (borbit_head (S f) x o H) as [r0 Ho]. subst o.
+  assert (Hx : bnode_ok d x = true) by (apply Hok; left; reflexivity).
+  cbn [borbit orbit] in *.
+  destruct (bstep d x) as [n'|] eqn:Es; [|discriminate]. cbn [bind] in H.
+  rewrite (lower_step fl d Hnames Hpairs x n' Hx Es). cbn [bind].
+  destruct (bnode_eqb n' x) eqn:E.
+  - apply bnode_eqb_eq in E. subst n'. rewrite (proj2 (NetsProofs.node_eqb_eq _ _) eq_refl). inversion H. reflexivity.
+  - destruct (borbit d f n') as [r|] eqn:Er; [|discriminate]. cbn [bind] in H. inversion H; subst r0.
+    destruct (borbit_head f n' r Er) as [r' Hr].
+    assert (Hn' : bnode_ok d n' = true) by (apply Hok; right; rewrite Hr; left; reflexivity).
+    rewrite node_eqb_phi_ok by assumption. rewrite E.
+    rewrite (IH n' r Er) by (intros y Hy; apply Hok; right; exact Hy). reflexivity.
+Qed.
+
+Lemma meets_phi_ok a b : all_ok_nodes a -> all_ok_nodes b -> Nets.meets (map (phi fl) a) (map (phi fl) b) = bmeets a b.
+Proof.
+  intros Ha Hb. unfold Nets.meets, bmeets. induction a as [|x a IH]; [reflexivity|]. cbn [map existsb].
+  rewrite IH by (intros y Hy; apply Ha; right; exact Hy). f_equal.
+  assert (Hx : bnode_ok d x = true) by (apply Ha; left; reflexivity). clear IH Ha.
+  induction b as [|y b IHb]; [reflexivity|]. cbn [map existsb].
+  rewrite node_eqb_phi_ok by (auto; apply Hb; left; reflexivity).
+  rewrite IHb by (intros z Hz; apply Hb; right; exact Hz). reflexivity.
+Qed.
+
+Lemma first_meet_phi_ok o os : all_ok_nodes o -> (forall o', In o' os -> all_ok_nodes o') ->
+  forall k, first_meet (map (phi fl) o) (map (map (phi fl)) os) k = bfirst_meet o os k.
+Proof.
+  intros Ho. induction os as [|o' os IH]; intros Hos k; [reflexivity|]. cbn [map first_meet bfirst_meet].
+  rewrite meets_phi_ok by (auto; apply Hos; left; reflexivity). destruct (bmeets o o'); [reflexivity|].
+  apply IH. intros o'' Hin. apply Hos. right. exact Hin.
+Qed.
+
+Theorem labels_lower_checked fuel ts os :
+  traverse (borbit d fuel) ts = Ok os -> forallb (forallb (bnode_ok d)) os = true ->
+  labels (lower fl d) fuel (map (phi fl) ts) = blabels d fuel ts.
+Proof.
+  intros Ht Hall. unfold labels, blabels. rewrite Ht. cbn [bind].
+  assert (Hos : forall o, In o os -> all_ok_nodes o).
+  { intros o Ho y Hy. rewrite forallb_forall in Hall. specialize (Hall o Ho). rewrite forallb_forall in Hall. exact (Hall y Hy). }
+  assert (T : traverse (orbit (lower fl d) fuel) (map (phi fl) ts) = Ok (map (map (phi fl)) os)).
+  { clear Hall. revert os Ht Hos. induction ts as [|t ts IH]; intros os Ht Hos; cbn [map traverse] in *; [inversion Ht; reflexivity|].
+    destruct (borbit d fuel t) as [o|] eqn:Eo; [|discriminate]. cbn [bind] in Ht.
+    destruct (traverse (borbit d fuel) ts) as [os'|] eqn:Et; [|discriminate]. cbn [bind] in Ht. inversion Ht; subst os.
+    rewrite (orbit_lower_checked fuel t o Eo) by (apply Hos; left; reflexivity). cbn [bind].
+    rewrite (IH os' eq_refl) by (intros o' Ho'; apply Hos; right; exact Ho'). reflexivity. }
+  rewrite T. cbn [bind]. f_equal. rewrite map_map. apply map_ext_in. intros o Ho.
+  apply first_meet_phi_ok; [apply Hos; exact Ho|exact Hos].
+Qed.
+End Checked.
